@@ -84,6 +84,10 @@ ReqCrlOk(a, o) ==
                                Ext(x, OidCrlNumber).int = IntContent(p.crlNumber)>>,
   <<"C04.revoked_serial_minimal", \A i \in DOMAIN o.revoked : i \in DOMAIN p.revoked =>
                                o.revoked[i].serial = IntContent(p.revoked[i].serial)>>,
+  <<"C04.crl_times_in_rfc5280_time_forms",
+       /\ ReqTimeShape(o.thisUpdate) /\ ReqTimeFormOfEncoded(o.thisUpdate)
+       /\ (o.nextUpdate.k = "some" => ReqTimeShape(o.nextUpdate.t) /\ ReqTimeFormOfEncoded(o.nextUpdate.t))
+       /\ \A i \in DOMAIN o.revoked : ReqTimeShape(o.revoked[i].date) /\ ReqTimeFormOfEncoded(o.revoked[i].date)>>,
   <<"C04.no_trailing_bytes", ~o.trailing>>,
   <<"C09.thisUpdate", ReqTimeInstant(p.thisUpdate, o.thisUpdate) /\ ReqTimeForm(p.thisUpdate, o.thisUpdate) /\ ReqTimeShape(o.thisUpdate)>>,
   <<"C09.nextUpdate", o.nextUpdate.k = "some" /\ ReqTimeInstant(p.nextUpdate, o.nextUpdate.t)
